@@ -74,7 +74,7 @@ func cmdCheck(args []string) int {
 		*tier = t
 	}
 	if *timeout == 0 {
-		*timeout = 30
+		*timeout = 60
 		if *tier == "thorough" {
 			*timeout = 180
 		}
@@ -131,7 +131,7 @@ func cmdCheck(args []string) int {
 	// solve
 	var wg sync.WaitGroup
 	var mu sync.Mutex
-	gate := make(chan struct{}, 12)
+	gate := make(chan struct{}, 8)
 	// query texts are produced sequentially (translation state is not goroutine-safe); solving is parallel
 	queries := make([]string, len(run.obls))
 	for i, o := range run.obls {
